@@ -407,7 +407,61 @@ def check_monitor(ctx, R="C11.monitor"):
         ctx.finding(R, fb, "CompiledRequirement.falsifiedByInner", "the step-0 check no longer compares a fresh monitor's verdict with rv_ltl.B4.FALSE")
 
 
+
+def check_visited_children(ctx, R="C11.children"):
+    ctx.rule(
+        R,
+        "a requirement visitor decides on the COMPILED operand: in the PropositionTransformer, once a visitor has compiled a child "
+        "(`x = self.visit(node.<field>)`), it does not consult the raw `node.<field>` again except to test whether it is present or to "
+        "read its source location; asking the raw child whether it is a proposition factory (it never is: factories are what "
+        "compiling produces) wraps an already temporal operand into an atomic proposition, so e.g. `not always C` is evaluated on the "
+        "current step only",
+    )
+    model = ctx.model
+    ci = model.cls(CO, "PropositionTransformer")
+    n = 0
+    for mn, fn in ci.methods.items():
+        if not mn.startswith("visit_") or len(fn.args.args) < 2:
+            continue
+        npar = fn.args.args[1].arg
+        visited = set()
+        for c in walk_local(fn):
+            if isinstance(c, ast.Call) and unparse(c.func) == "self.visit" and c.args and isinstance(c.args[0], ast.Attribute) and unparse(c.args[0].value) == npar:
+                visited.add(c.args[0].attr)
+        for x in walk_local(fn):
+            if not (isinstance(x, ast.Attribute) and isinstance(x.value, ast.Name) and x.value.id == npar and x.attr in visited and isinstance(x.ctx, ast.Load)):
+                continue
+            par = parent(x)
+            if isinstance(par, ast.Call) and unparse(par.func) == "self.visit" and par.args and par.args[0] is x:
+                continue
+            n += 1
+            ok = False
+            if isinstance(par, ast.Attribute) and par.value is x and par.attr in ("lineno", "col_offset", "end_lineno", "end_col_offset"):
+                ok = True
+            if isinstance(par, ast.Compare) and all(isinstance(o, (ast.Is, ast.IsNot)) for o in par.ops):
+                ok = True
+            if isinstance(par, (ast.If, ast.IfExp, ast.While)) and par.test is x:
+                ok = True
+            if isinstance(par, ast.Call) and dotted(par.func) in ("ast.copy_location", "ast.fix_missing_locations") and par.args and par.args[-1] is x:
+                ok = True  # only the location is taken from it
+            if ok:
+                ctx.ok(R, x, f"{mn}: the raw `{unparse(x)}` is only tested for presence / asked for its location")
+            else:
+                ctx.finding(
+                    R,
+                    x,
+                    f"{mn}: raw child {unparse(x)} consulted after it was compiled",
+                    f"PropositionTransformer.{mn} compiles `{unparse(x)}` and then uses the raw child again in `{norm_text(lib.statement_of(x), 70)}`: a decision that should look at the compiled "
+                    f"operand (is it already a proposition factory?) looks at the uncompiled one, so a temporal operand is wrapped as an atomic proposition and evaluated in the current step only",
+                )
+    if n == 0:
+        ctx.ok(R, ci.node, "no requirement visitor consults a raw child after compiling it")
+    nvis = sum(1 for mn, fn in ci.methods.items() if mn.startswith("visit_") and any(isinstance(c, ast.Call) and unparse(c.func) == "self.visit" for c in walk_local(fn)))
+    ctx.floor(R, nvis, 5, "requirement visitors that compile children")
+
+
 def check(ctx):
+    ctx.run(check_visited_children)
     ctx.run(check_chain)
     ctx.run(check_classes)
     ctx.run(check_monitor)
